@@ -11,6 +11,11 @@ HWMInit == TLCSet(1, 0)
 HWMNote(l) == IF l > TLCGet(1) THEN TLCSet(1, l) ELSE TRUE
 HWM == TLCGet(1)
 
+(* Deterministic monitors report a rejected run by printing one line from a *)
+(* CONSTRAINT (cheap: no counterexample reconstruction; the harness has the  *)
+(* trace).  The constraint is FALSE for the bad state so it is not expanded. *)
+RejectLine(l, why) == PrintT(<<"REJECT", l, why>>) /\ FALSE
+
 Accepted(l, len) ==
     IF HWM = len + 1 THEN TRUE
     ELSE PrintT(<<"TRACE-REJECTED-AT-LINE", HWM, "OF", len>>) /\ FALSE
